@@ -967,7 +967,8 @@ class RichSampler(Sampler):
             # case lists with several values, the default clause in the middle
             tag = "(%s + %d) & 3" % (rng.choice(vals), rng.randint(0, 5))
             b0, bd, b1 = strip_jumps(sub(in_loop, True)), strip_jumps(sub(in_loop, True)), strip_jumps(sub(in_loop, True))
-            lines = ["switch %s {" % tag, "case 0, 2:"] + p_stmts(b0, 1) + ["default:"] + p_stmts(bd, 1) + ["case 1:"] + p_stmts(b1, 1) + ["}"]
+            # an empty clause absorbs its values: nothing happens, the default is not taken
+            lines = ["switch %s {" % tag, "case 0, 2:"] + p_stmts(b0, 1) + ["case 3:", "default:"] + p_stmts(bd, 1) + ["case 1:"] + p_stmts(b1, 1) + ["}"]
             return [("rawstmts", "\n".join(lines), [b0, bd, b1])]
         if k == "TSWM":
             # type switch without a binding / with a binding in a multi-type clause, a nil clause
@@ -1185,6 +1186,14 @@ def panic_driver(name, K, nlo=-1, nhi=3):
 	a, b, n := rt.NondetInt(1), rt.NondetInt(2), rt.NondetInt(3)
 	g1, g2, g3 := rt.NondetBool(4), rt.NondetBool(5), rt.NondetBool(6)
 	rt.Assume(n >= %(nlo)d && n <= %(nhi)d)
+	// a panic outside an advance (when the generator function is called) is logged as such
+	escaped := true
+	defer func() {
+		if escaped {
+			rt.EmitPanic(rt.PANIC, recover())
+			rt.Emit(rt.END, 1)
+		}
+	}()
 	it := %(name)s(a, b, n, g1, g2, g3)
 	rt.Emit(rt.CREATED, 0)
 	for k := 0; k < %(K)d; k++ {
@@ -1214,6 +1223,7 @@ def panic_driver(name, K, nlo=-1, nhi=3):
 		}
 	}
 	rt.Emit(rt.END, 0)
+	escaped = false
 }""" % {"name": name, "K": K, "nlo": nlo, "nhi": nhi}
 
 
@@ -1538,13 +1548,17 @@ class ScopeSampler:
                 break
             if self.rng.random() < 0.15:
                 break
-        # every declared variable / closure of this scope must be used
+        # every declared variable / closure of this scope must be used - before a trailing jump:
+        # the rewriter drops dead code, and a use that only exists in dead code leaves the
+        # generated file with an unused variable
+        tail = []
+        if out and out[-1][0] in ("break", "continue", "return"):
+            tail = [out.pop()]
         for v in scopes[-1]["vars"]:
-            out_has = any(v in repr(s) for s in out[1:])
             out.append(("effv", 5, v))
         for cname, kind in scopes[-1]["clos"]:
             out.append(("raw", "_ = %s" % cname))
-        return out
+        return out + tail
 
     def stmt(self, budget, scopes, in_loop, depth):
         rng = self.rng
@@ -1565,7 +1579,7 @@ class ScopeSampler:
         if self.closures(scopes):
             kinds += ["CALL"] * 4
         if depth < self.max_depth and budget[0] >= 2:
-            kinds += ["IF"] * 2 + ["IFE", "BLK", "BLK", "FOR", "FORSH", "SWINIT", "TSW", "RANGE", "WHILE"]
+            kinds += ["IF"] * 2 + ["IFE", "BLK", "BLK", "FOR", "FORSH", "FORSHNC", "FORSH2", "SWINIT", "TSW", "RANGE", "WHILE"]
         if in_loop:
             kinds += ["BRK", "CNT"]
         k = rng.choice(kinds)
@@ -1628,6 +1642,22 @@ class ScopeSampler:
             n = rng.choice(self.NAMES)
             inner = scopes + [{"vars": [n], "clos": [], "ro": [n]}]
             return [("for", ("decl", n, "0"), "%s < n" % n, ("inc", n), self.body(budget, inner, True, depth + 1) or [("eff", self.k())])]
+        if k == "FORSHNC":
+            # condition-less three-clause loop whose variable shadows x / y, left by break
+            n = rng.choice(self.NAMES)
+            inner = scopes + [{"vars": [n], "clos": [], "ro": [n]}]
+            body = self.body(budget, inner, True, depth + 1) or [("eff", self.k())]
+            return [("for", ("decl", n, "0"), None, ("inc", n), [("if", "%s >= n" % n, [("break",)], None)] + body)]
+        if k == "FORSH2":
+            # two-variable init: one name shadows x / y, the other is new; with and without condition
+            n = rng.choice(self.NAMES)
+            self.nloop += 1
+            j = "fj%d" % self.nloop
+            inner = scopes + [{"vars": [n, j], "clos": [], "ro": [n, j]}]
+            body = self.body(budget, inner, True, depth + 1) or [("eff", self.k())]
+            if rng.random() < 0.5:
+                return [("for", ("raw", "%s, %s := 0, n+1" % (n, j)), "%s < %s" % (n, j), ("raw", "%s, %s = %s+1, %s-1" % (n, j, n, j)), body)]
+            return [("for", ("raw", "%s, %s := 0, n+1" % (n, j)), None, ("raw", "%s, %s = %s+1, %s-1" % (n, j, n, j)), [("if", "%s >= %s" % (n, j), [("break",)], None)] + body)]
         if k == "WHILE":
             self.nloop += 1
             v = "w%d" % self.nloop
@@ -1957,6 +1987,11 @@ def c06_consumer(rng, shape):
         return head + "\tvar arr [4]int\n\tq := &arr[0]\n\tj := 0\n\tfor *q = range %s {\n\t\tj++\n\t\tif j >= 4 {\n\t\t\tbreak\n\t\t}\n\t\tq = &arr[j]\n\t}\n\tfor _, d := range arr {\n\t\trt.Emit(49, d)\n\t\tt = (t << 1) ^ d\n\t}\n" % fin + tail
     if shape == "assign_to_map_entry_moving_key":
         return head + "\tm := map[int]int{}\n\tk := 0\n\tfor m[k] = range %s {\n\t\tk++\n\t\tif k >= 3 {\n\t\t\tbreak\n\t\t}\n\t}\n\tfor q := 0; q < 3; q++ {\n\t\trt.Emit(49, m[q])\n\t\tt = (t << 1) ^ m[q]\n\t}\n" % fin + tail
+    if shape == "typed_nil_marker":
+        # nil as "not opened yet": the conversion Iter[int](nil) is an occurrence of the iterator type too
+        return head + "\tvar it Iter[int] = Iter[int](nil)\n\talt := (Iter[int])(nil)\n\tvar zero Iter[int]\n\tif g1 {\n\t\tit = %s\n\t}\n\tif it == nil {\n\t\trt.Emit(rt.EFF, 691)\n\t\tit = %s\n\t}\n\tif alt == nil && zero == nil {\n\t\trt.Emit(rt.EFF, 692)\n\t}\n\tfor v := range it {\n%s\n\t}\n" % (fin, rng.choice(["GC@(a, b)", "GA@(b, n)"]), indent(c06_loop_body(rng, "v"), 2)) + tail
+    if shape == "typed_nil_reset":
+        return head + "\tit := %s\n\tfor k := 0; k < 2; k++ {\n\t\tif it == nil {\n\t\t\trt.Emit(rt.EFF, 693)\n\t\t\tit = %s\n\t\t}\n\t\tif it.MoveNext() {\n\t\t\tt = (t << 1) ^ it.Current()\n\t\t}\n\t\tif g2 {\n\t\t\tit = Iter[int](nil)\n\t\t}\n\t}\n" % (fin, rng.choice(["GC@(a, b)", "GA@(b, n)"])) + tail
     if shape == "param_pass":
         return ("func drain@(it Iter[int], lim int, g bool) int {\n\tt := 0\n\tfor v := range it {\n\t\tt = (t << 1) ^ v\n\t\tlim--\n\t\tif lim <= 0 || (g && v > 5) {\n\t\t\tbreak\n\t\t}\n\t}\n\treturn t\n}\n\n" +
                 head + "\tit := %s\n\tt = drain@(it, 2, g1)\n\trt.Emit(46, t)\n\tt = (t << 1) ^ drain@(it, 2, g2)\n" % src + tail)
@@ -1966,7 +2001,8 @@ def c06_consumer(rng, shape):
 C06_SHAPES = ["range_define", "range_assign", "nested", "pull_then_range", "range_then_pull", "struct_field", "map_slice", "closure_pull", "generic_take", "param_pass",
               "field_reassigned_in_loop", "index_changed_in_loop", "map_entry_reassigned_in_loop", "operand_evaluated_once",
               "first_match_nested", "first_element",
-              "assign_to_element_moving_index", "assign_to_field_moving_pointer", "assign_to_deref_moving_pointer", "assign_to_map_entry_moving_key"]
+              "assign_to_element_moving_index", "assign_to_field_moving_pointer", "assign_to_deref_moving_pointer", "assign_to_map_entry_moving_key",
+              "typed_nil_marker", "typed_nil_reset"]
 
 
 def c06_programs(rng, per_shape):
@@ -2218,6 +2254,46 @@ func G@(a, b, n int, g1, g2, g3 bool) (_ Iter[int]) {
 
 func G@(a, b, n int, g1, g2, g3 bool) (_ Iter[int]) {
 	YieldFrom(GT@(map[int]int{1: a}, "ab"))
+	return
+}
+"""),
+    ("defer_after_last_yield_in_loop", """func G@(a, b, n int, g1, g2, g3 bool) (_ Iter[int]) {
+	for i := 0; i < n; i++ {
+		Yield(a + i)
+		defer rt.Emit(40, i)
+	}
+	rt.Emit(rt.EFF, 930)
+	return
+}
+"""),
+    ("defer_after_last_yield_in_if", """func G@(a, b, n int, g1, g2, g3 bool) (_ Iter[int]) {
+	Yield(a)
+	if g3 {
+		Yield(b)
+		defer rt.Emit(rt.EFF, 931)
+	}
+	rt.Emit(rt.EFF, 932)
+	return
+}
+"""),
+    ("defer_after_last_yield_in_case", """func G@(a, b, n int, g1, g2, g3 bool) (_ Iter[int]) {
+	switch a & 1 {
+	case 0:
+		Yield(b)
+		defer rt.Emit(rt.EFF, 933)
+	default:
+		rt.Emit(rt.EFF, 934)
+	}
+	rt.Emit(rt.EFF, 935)
+	return
+}
+"""),
+    ("defer_after_last_yield_toplevel", """func G@(a, b, n int, g1, g2, g3 bool) (_ Iter[int]) {
+	Yield(a)
+	defer rt.Emit(rt.EFF, 936)
+	if g3 {
+		rt.Emit(rt.EFF, 937)
+	}
 	return
 }
 """),
